@@ -44,5 +44,31 @@ fn c08_balances_match_reference() {
         let lines = csv_lines(&out.path().join("balances-0-2.csv"));
         check(r.is_ok() && lines == vec!["address;balance".to_string()], suite, "C08:header_row", "history in which no output carries an address", &format!("{:?} {:?}", r.err(), lines), "[\"address;balance\"]");
     }
+    // output indices on both sides of every integer width (255/256, 65535/65536): each index is its own outpoint
+    {
+        cases += 1;
+        let owners: Vec<(usize, u8)> = vec![(0, 0xD0), (255, 0xD1), (256, 0xD2), (65_535, 0xD3), (65_536, 0xD4), (512, 0xD0), (65_792, 0xD5)];
+        let fan = TxSpec::new(vec![TxIn::new([0x44; 32], 1, vec![0x51])], (0..65_800usize).map(|i| match owners.iter().find(|(k, _)| *k == i) {
+            Some((_, a)) => TxOut::new(1000 + i as u64, p2pkh_script(&[*a; 20])), None => TxOut::new(1, vec![]) }).collect());
+        let fid = fan.txid();
+        let spend = TxSpec::new(vec![TxIn::new(fid, 256, vec![]), TxIn::new(fid, 65_536, vec![])], vec![TxOut::new(7, p2pkh_script(&[0xD6; 20]))]);
+        let mut blocks = vec![vec![fan], vec![], vec![spend]].into_iter();
+        let mut chain = make_chain(4, &mut |h| if h == 0 { vec![] } else { blocks.next().unwrap() });
+        relink(&mut chain);
+        let d = simple_dir(&chain); d.write();
+        for (s, e) in [(0u64, Some(2u64)), (0, None)] {
+            let last = e.unwrap_or(3);
+            let out = tempfile::tempdir().unwrap();
+            let m = Balances::build_subcommand().get_matches_from(vec!["balances", out.path().to_str().unwrap()]);
+            let inp = format!("one transaction with 65800 outputs, addresses at indices 0, 255, 256, 512, 65535, 65536, 65792; range {}..{:?} (256 and 65536 spent at height 3)", s, e);
+            if let Err(x) = drive_with(d.path(), "bitcoin", s, e, false, Box::new(Balances::new(&m).unwrap())) { fail(suite, "C08:run_completes", &inp, &x, "Ok"); continue; }
+            let lines = csv_lines(&out.path().join(format!("balances-{}-{}.csv", s, last)));
+            let mut sums: std::collections::BTreeMap<String, u64> = std::collections::BTreeMap::new();
+            for (_, (_h, v, a)) in ref_utxo(&chain, s, last) { *sums.entry(a).or_insert(0) += v; }
+            let mut got: Vec<String> = lines.iter().skip(1).cloned().collect(); got.sort();
+            let mut want: Vec<String> = sums.iter().map(|(a, v)| format!("{};{}", a, v)).collect(); want.sort();
+            check(got == want, suite, "C08:one_row_per_address_with_the_exact_sum", &inp, &format!("{:?}", got), &format!("{:?}", want));
+        }
+    }
     finish(suite, cases);
 }
